@@ -1,7 +1,7 @@
 (** Properties/C15.v — "Typed objects round-trip through their dictionary form without losing entries".
     Only statements, each closed by [exact] of a lemma proved elsewhere. *)
 From PdfV Require Import Base.Prelude Gen.Generated Typed.Prim Typed.Schema Typed.Derive Typed.Hand
-  Typed.DictProofs Typed.DeriveProofs Typed.HandProofs.
+  Typed.DictProofs Typed.DeriveProofs Typed.HandProofs Typed.ReadProofs Typed.TopProofs.
 
 (** The first sentence of the property, for every type of the universe (containers, derived structs, name and integer
     enums, hand-written pairs as a parameter), every schema set, both option sets, every object table: a value that
@@ -64,10 +64,94 @@ Theorem C15_hand_Rectangle : forall rs v p, write_numbers 4 v = TOk p ->
 Proof. exact rectangle_rt. Qed.
 Print Assumptions C15_hand_Rectangle.
 
-Theorem C15_hand_Matrix : forall v p, write_numbers 6 v = TOk p ->
-  exists v', read_matrix p = TOk v' /\ write_numbers 6 v' = TOk p.
+Theorem C15_hand_Matrix : forall rs v p, write_numbers 6 v = TOk p ->
+  exists v', read_matrix rs p = TOk v' /\ write_numbers 6 v' = TOk p.
 Proof. exact matrix_rt. Qed.
 Print Assumptions C15_hand_Matrix.
+
+(** Date: every date the writer accepts reads back (whatever the resolver) to a date with the same written form *)
+Theorem C15_hand_Date : forall rs v p, write_date v = TOk p ->
+  exists v', read_date rs p = TOk v' /\ write_date v' = TOk p.
+Proof. exact date_rt. Qed.
+Print Assumptions C15_hand_Date.
+
+(** Action (after fix C15-b): Goto with a named destination and every other action *)
+Theorem C15_hand_Action : forall rs v p, action_ok v -> write_action v = TOk p ->
+  exists v', read_action rs p = TOk v' /\ write_action v' = TOk p.
+Proof. exact action_rt. Qed.
+Print Assumptions C15_hand_Action.
+
+(** Second sentence, READER half: for a model with a catch-all, every entry of an accepted input dictionary survives
+    reading and writing back — (1) an unrecognised entry verbatim (also /Type and the checked keys), (2) a recognised
+    entry as the written form of the value read from it (this per-type normalisation is where integers become reals
+    of equal value and where one-or-many / references are normalised; it disappears only when that written form is
+    Null, i.e. an omitted default of an Option / HashMap), and (3) nothing is invented except /Type, the checked keys
+    and the written forms of declared defaults / of the value read from Null.  [nodup_keys]: IndexMap invariant. *)
+Theorem C15_dict_rt_read : forall SC H allow E f chain i s d vs dw,
+  get_struct SC i = Some s -> schema_wf s = true -> existsb f_other (s_fields s) = true -> nodup_keys d ->
+  read SC H allow E (S f) chain (TStruct i) (PDict d) = TOk (VStruct vs) ->
+  write SC H (S f) (TStruct i) (VStruct vs) = TOk (PDict dw) ->
+  (forall k v, key_fresh k (s_fields s) = true -> dget k d = Some v -> dget k dw = Some v)
+  /\
+  (forall fd q, In fd (s_fields s) -> normal fd = true -> dget (f_key fd) d = Some q ->
+     exists x val, read SC H allow E f chain (f_ty fd) q = TOk x /\ write SC H f (f_ty fd) x = TOk val
+                   /\ dget (f_key fd) dw = (if is_null val then None else Some val))
+  /\
+  (forall k val, dget k dw = Some val -> dget k d = None ->
+     (k = TypeKey /\ val = PName (s_type s))
+     \/ (exists n, In (k, n) (s_checks s) /\ val = PName n)
+     \/ exists fd x, In fd (s_fields s) /\ normal fd = true /\ k = f_key fd /\ write SC H f (f_ty fd) x = TOk val /\
+          (match f_default fd with
+           | DNone => read SC H allow E f chain (f_ty fd) PNull = TOk x
+           | dv => exists acc, x = default_value dv acc
+           end)).
+Proof. exact dict_rt_read. Qed.
+Print Assumptions C15_dict_rt_read.
+
+(** integers versus reals of equal value, at the leaf: an f32 entry given as an integer is written back as the real
+    number of equal value (exact binary32 conversion Prim.f32_of_i32) *)
+Theorem C15_int_real : forall SC H allow E f chain z,
+  tbind (read SC H allow E (S f) chain TF32 (PInt z)) (write SC H (S f) TF32) = TOk (PNum (f32_of_i32 z)).
+Proof. intros. reflexivity. Qed.
+Print Assumptions C15_int_real.
+
+(** `indirect` fields: the top-level writer threads the object table (Updater::create appends, the entry is a fresh
+    reference).  The written dictionary reads back — in the table after the write — to a value whose write gives the
+    same dictionary up to the number of a re-created object of equal content ([sim_dict]); literally the same
+    dictionary and table when every indirect field is an Option<MaybeRef<_>> (Page). *)
+Theorem C15_top_rt : forall SC H allow E1 (hand_ok : N -> value -> Prop),
+  (forall i x p, hand_ok i x -> h_write H i x = TOk p ->
+     exists x', h_read H i (resolve E1) p = TOk x' /\ h_write H i x' = TOk p) ->
+  forall F E0 i s vs dw,
+  get_struct SC i = Some s -> schema_wf_top s = true ->
+  (forall fd, In fd (s_fields s) -> normal fd = true -> dget (f_key fd) (other_of (s_fields s) vs) = None) ->
+  write_top SC H F E0 i (VStruct vs) = TOk (PDict dw, E1) ->
+  top_ok SC H allow E1 hand_ok F (s_fields s) vs (lenN E0) ->
+  (3 <= F)%nat ->
+  exists vs', read SC H allow E1 (S F) [] (TStruct i) (PDict dw) = TOk (VStruct vs')
+    /\ exists dw' E2, write_top SC H F E1 i (VStruct vs') = TOk (PDict dw', E2)
+         /\ (exists X, E2 = E1 ++ X) /\ sim_dict E2 dw dw'.
+Proof. exact top_rt. Qed.
+Print Assumptions C15_top_rt.
+
+Theorem C15_top_rt_maybe_ref : forall SC H allow E1 (hand_ok : N -> value -> Prop),
+  (forall i x p, hand_ok i x -> h_write H i x = TOk p ->
+     exists x', h_read H i (resolve E1) p = TOk x' /\ h_write H i x' = TOk p) ->
+  forall F E0 i s vs dw,
+  get_struct SC i = Some s -> schema_wf_top s = true ->
+  (forall fd, In fd (s_fields s) -> normal fd = true -> dget (f_key fd) (other_of (s_fields s) vs) = None) ->
+  write_top SC H F E0 i (VStruct vs) = TOk (PDict dw, E1) ->
+  top_ok SC H allow E1 hand_ok F (s_fields s) vs (lenN E0) ->
+  maybe_ref_only s = true ->
+  exists vs', read SC H allow E1 (S F) [] (TStruct i) (PDict dw) = TOk (VStruct vs')
+    /\ write_top SC H F E1 i (VStruct vs') = TOk (PDict dw, E1).
+Proof. exact top_rt_maybe_ref. Qed.
+Print Assumptions C15_top_rt_maybe_ref.
+
+(** every generated struct with reader and writer — those with `indirect` fields included — meets the premise *)
+Theorem C15_generated_top_wf : forallb (fun s => negb (rw s) || schema_wf_top s) (structs gen_schemas) = true.
+Proof. exact top_generated_wf. Qed.
+Print Assumptions C15_generated_top_wf.
 
 (** non-vacuity: a concrete Page-like value of a generated schema satisfies the premises and goes round *)
 Example C15_nonvacuous_date :
